@@ -603,6 +603,45 @@ def _stamp_pipe_failures():
     return fails, n
 
 
+def _shell_line_failures():
+    """Bounded: the command line a script is started with, on the real binaries.  For each of `redo`, `redo -v`, `redo -x`,
+    `redo -vx`, `redo -xx`, `redo -vv`: (a) a script whose first command fails and whose later commands would succeed must
+    fail the build (sh -e), one level down as well; (b) script, $1, $2, $3 arrive as built; (c) a `#!/bin/sh` script gets the
+    same three arguments.  -> (failures, n) or None"""
+    bindir = build_redo_bin()
+    if not bindir:
+        return None
+    env = {k: v for k, v in os.environ.items() if not k.startswith('REDO') and k != 'MAKEFLAGS'}
+    env['PATH'] = bindir + ':' + env.get('PATH', '')
+    work = tempfile.mkdtemp(prefix='redo-verif-shell.', dir='/var/tmp')
+    fails, n = [], 0
+    try:
+        for flags in ([], ['-v'], ['-x'], ['-v', '-x'], ['-x', '-x'], ['-v', '-v']):
+            n += 1
+            proj = os.path.join(work, 'p%d' % n)
+            os.makedirs(proj)
+            open(os.path.join(proj, 'bad.do'), 'w').write('false\necho late >"$3"\n')
+            open(os.path.join(proj, 'app.do'), 'w').write('redo-ifchange bad\necho app-built >"$3"\n')
+            open(os.path.join(proj, 'default.args.do'), 'w').write('printf "%s|%s|%s\\n" "$1" "$2" "$3" >"$3"\n')
+            open(os.path.join(proj, 'she.args2.do'), 'w').write('#!/bin/sh\nprintf "%s|%s|%s\\n" "$1" "$2" "$3" >"$3"\n')
+            hist = 'redo --no-log %s <target>' % ' '.join(flags)
+            for tgt in ('bad', 'app'):
+                r = subprocess.run(['redo', '--no-log'] + flags + [tgt], cwd=proj, env=env, capture_output=True, text=True, timeout=60)
+                if r.returncode == 0 or os.path.exists(os.path.join(proj, tgt)):
+                    fails.append(dict(input=hist + '; bad.do = "false; echo late >$3"; app.do = "redo-ifchange bad; echo app-built >$3"; target ' + tgt,
+                                      observed='exit %d, %s %s' % (r.returncode, tgt, 'exists' if os.path.exists(os.path.join(proj, tgt)) else 'absent'),
+                                      clause='a script stops at its first failing command (sh -e): the build fails and the target is not replaced', label='shell.sh_stops_at_the_first_failing_command', props=['C05', 'C13']))
+            for tgt, want in (('x.args', 'x.args|x|x.args.redo.tmp'), ('she.args2', 'she.args2|she.args2|she.args2.redo.tmp')):
+                r = subprocess.run(['redo', '--no-log'] + flags + [tgt], cwd=proj, env=env, capture_output=True, text=True, timeout=60)
+                got = open(os.path.join(proj, tgt)).read().strip() if os.path.exists(os.path.join(proj, tgt)) else None
+                if r.returncode != 0 or got != want:
+                    fails.append(dict(input=hist + '; target ' + tgt, observed='exit %d, arguments seen: %r, expected %r' % (r.returncode, got, want),
+                                      clause='script, $1, $2, $3 reach the script as built, with or without a #! line', label='shell.script_and_arguments_are_kept', props=['C13']))
+    finally:
+        shutil.rmtree(work, ignore_errors=True)
+    return fails, n
+
+
 def _corpus_failures(prop):
     """Bounded: the demonstration scripts of the seeded changes kept for this property (seeded/<id>/demo/demo.sh, listed in
     seeded/corpus.json with the clause each one checks).  Each is a concrete history with the real binaries that exits 0
@@ -752,6 +791,16 @@ def conformance(prop, unit_names, pins_changed, labels_props):
             out.append(dict(oid='trusted/File::from_name/one_record_one_name_per_file', msg='clause fails on the real binaries for a concrete history (bounded probe names, %d histories)' % r[1],
                             where=REPO + '/src/state.rs:File::from_name', site=None, text=hits[0]['clause'], rendered=json.dumps(hits[:6], indent=1),
                             inputs=[h['input'] for h in hits], fn='from_name', label='one_record_one_name_per_file', props=[prop]))
+    if 'dofiles' in unit_names and prop in ('C05', 'C13'):
+        r = _shell_line_failures()
+        by = {}
+        for h in (r[0] if r else []):
+            if prop in h['props']:
+                by.setdefault(h['label'], []).append(h)
+        for label, hits in by.items():
+            out.append(dict(oid='dofiles/start_self_shell_line/' + label, msg='clause fails on the real binaries for a concrete history (bounded probe shell-line, %d histories)' % r[1],
+                            where=REPO + '/src/builder.rs:start_self', site=None, text=hits[0]['clause'], rendered=json.dumps(hits[:6], indent=1), inputs=[h['input'] for h in hits],
+                            fn='start_self_shell_line', label=label, props=hits[0]['props']))
     if not out and unit_names:
         r = _corpus_failures(prop)
         for h in (r[0] if r else []):
@@ -793,6 +842,8 @@ def bounded(prop, unit_names, labels_props):
         if prop == 'C08':
             extra.append(('cheatpipe', _cheatpipe_failures, 'tokens/setup_cheat_fds/setup.own_jobserver_owns_its_debts', lambda h: True))
             extra.append(('conserve', _conserve_failures, 'tokens/do_force_return_tokens/exit.one_token', lambda h: True))
+        if prop in ('C05', 'C13'):
+            extra.append(('shell-line', _shell_line_failures, 'dofiles/start_self_shell_line/shell.sh_stops_at_the_first_failing_command', lambda h: prop in h['props']))
         if prop in ('C03', 'C01'):
             extra.append(('stamp-pipe', _stamp_pipe_failures, 'gluebins/stamp_digest/stamp.digest_covers_the_whole_input', lambda h: True))
         extra.append(('corpus', lambda: _corpus_failures(prop), None, lambda h: True))
